@@ -249,10 +249,22 @@ def expand_input(idx, ctx, only=None):
             for b in followups(world2["d1"])[:8]:
                 b = dict(b, tgt="d1")
                 case3 = {"c1": base["c1"], "others": others, "steps": [d, a, b]}
-                fails = run_history(case3, ctx)
+                if TIER == "thorough":
+                    fails, world3 = run_history(case3, ctx, want_world=True)
+                else:
+                    fails, world3 = run_history(case3, ctx), None
                 report(ctx, case3, fails)
                 if not fails:
                     ctx.count("validated")
+                if world3 is not None and not fails and "d1" in world3:
+                    # thorough: a derivation of the twice-modified derived converter, and a third modification
+                    for d3 in second_derivations(world3["d1"])[:4] + [dict(x, tgt="d1") for x in followups(world3["d1"])[:3]]:
+                        case4 = {"c1": base["c1"], "others": others, "steps": [d, a, b, d3]}
+                        f4 = run_history(case4, ctx)
+                        report(ctx, case4, f4)
+                        if not f4:
+                            ctx.count("validated")
+                            ctx.count("depth4_histories")
             # the same derivation once more: it must hand out a new object that does not show the follow-up
             case3 = {"c1": base["c1"], "others": others, "steps": [d, a, d], "repeat": True}
             fails = run_history(case3, ctx)
@@ -275,17 +287,22 @@ def report(ctx, case, fails):
         ctx.violation("C10/" + sig, msg, case)
 
 
+TIER = "quick"
+
+
 def units(tier, seed):
     from ..refmodel import Model
 
     out = []
     for i in range(len(INPUTS)):
         n = len(derivations(Model(INPUTS[i], ":"), range(len(INPUTS))))
-        out.extend({"input": i, "derivations": ch} for ch in chunks(list(range(n)), 16))
+        out.extend({"input": i, "derivations": ch, "tier": tier} for ch in chunks(list(range(n)), 16 if tier == "quick" else 64))
     return out
 
 
 def run_unit(unit, ctx):
+    global TIER
+    TIER = unit.get("tier", "quick")
     expand_input(unit["input"], ctx, set(unit["derivations"]))
 
 
@@ -303,7 +320,7 @@ def describe(tier):
         "case variant, fresh, rejected); level 3: 8 further follow-ups or 6 derivations of the derived converter; every history replayed "
         "on fresh objects, all non-target converters re-observed after every step; distinct_nontrivial = distinct derived states that a "
         "follow-up actually changed",
-        "bounds": {"inputs": len(INPUTS), "depth": 3},
+        "bounds": {"inputs": len(INPUTS), "depth": 3 if tier == "quick" else 4},
         "exhaustive": True,
         "assumptions": ["a documented rejection (ValueError / NotImplementedError) of a step is allowed; the frame invariant must hold after it too"],
     }
